@@ -1,6 +1,7 @@
 package world
 
 import (
+	"net/http"
 	"sync"
 	"time"
 
@@ -93,6 +94,11 @@ type EIOServer struct {
 }
 
 func (w *World) StartEIOServer(cfg *eio.ServerConfig) *EIOServer {
+	return w.StartEIOServerWrapped(cfg, nil)
+}
+
+// StartEIOServerWrapped lets the caller put an http.Handler around the server (request recorders).
+func (w *World) StartEIOServerWrapped(cfg *eio.ServerConfig, wrap func(http.Handler) http.Handler) *EIOServer {
 	es := &EIOServer{W: w}
 	if cfg.Debugger == nil {
 		cfg.Debugger = w.EIODbg
@@ -112,7 +118,11 @@ func (w *World) StartEIOServer(cfg *eio.ServerConfig) *EIOServer {
 	if err := es.Server.Run(); err != nil {
 		w.E.Violate("harness/eio-run", "world", "%v", err)
 	}
-	w.Serve(es.Server)
+	var h http.Handler = es.Server
+	if wrap != nil {
+		h = wrap(h)
+	}
+	w.Serve(h)
 	return es
 }
 
